@@ -12,6 +12,7 @@ import (
 	"sort"
 	"strings"
 	"testing"
+	"time"
 
 	"cuelabs.dev/go/oci/ociregistry/ociauth"
 	"pgregory.net/rapid"
@@ -164,6 +165,26 @@ func (s Script) document() []byte {
 	return b
 }
 
+// lookup runs one EntryForRegistry under a watchdog: a lookup is a function of the file and the
+// helpers' answers - it returns.
+func lookup(cf ociauth.Config, host string) (ociauth.ConfigEntry, error, bool) {
+	type res struct {
+		e   ociauth.ConfigEntry
+		err error
+	}
+	c := make(chan res, 1)
+	go func() {
+		e, err := cf.EntryForRegistry(host)
+		c <- res{e, err}
+	}()
+	select {
+	case r := <-c:
+		return r.e, r.err, false
+	case <-time.After(5 * time.Second):
+		return ociauth.ConfigEntry{}, nil, true
+	}
+}
+
 var tmpDir string
 
 func run(s Script, v *vt.V) {
@@ -215,7 +236,11 @@ func run(s Script, v *vt.V) {
 		}
 		for _, host := range lookups {
 			want := reference(s, host)
-			got, err := cf.EntryForRegistry(host)
+			got, err, hung := lookup(cf, host)
+			if hung {
+				v.Failf("lookup-hangs", "decoding %d, lookup of %q in %s did not return within 5 s (an earlier lookup on the same config left something locked?)", dec, host, s.document())
+				return
+			}
 			desc := fmt.Sprintf("decoding %d, lookup of %q in %s (credsStore helper behaviour %d)", dec, host, s.document(), s.behave(s.CredsStore, host))
 			// a deterministic function of the file and the helpers: the same answer (the same
 			// error text, too) from every decoding and in every lookup order
